@@ -659,8 +659,7 @@ def _rand_ops(rng, store, n):
         return sp(s["NS2"]) + sep + sp(s["N2S"]) + sep + sp(s["N2SL"])
 
     def value():
-        c = int(rng.integers(9))
-        return [0, 1, 2, 3, "a", "b", [1, 2], 0.5, None][c] if c < 9 else True
+        return [0, 1, 2, 3, "a", "b", [1, 2], 0.5, None, True][int(rng.integers(10))]
 
     def nested_defaults():
         d = {}
